@@ -457,13 +457,15 @@ def execute(sc, ctx):
                     del state.save
             if not late:
                 judge(i, hi.name, hi.value, "hash_file")
+                note_saved([i])
             else:
-                # the answer of THIS call describes the bytes it read; what it recorded must not vouch
-                # for them under the file's new (inode, mtime, size): the model row says "current bytes"
-                # and any later hit is judged against it
+                # the answer of THIS call describes the bytes it read; the row it wrote must pair them with
+                # the triple taken BEFORE reading (never with the file's new triple): that is what the model
+                # row says, so a later hit under the new triple is judged as a plain stale hash
                 versions.pop(i, None)
-                row.pop(p, None)
-            note_saved([i])
+                row[p] = (t_before, [old_bytes])
+                ralt.pop(p, None)
+                lrow.pop(p, None)
             if late and token(p) == t_before:
                 # the clock had stepped back and the lengths coincide: (inode, mtime, size) did not change,
                 # an invisible mutation by the statement's own wording - the row may vouch for either content
